@@ -96,6 +96,43 @@ fn envelope(name: &str, spdc0: &SPDC, rng: &mut Rng, n: usize) {
   }
 }
 
+fn envelope_one(name: &str, spdc: &SPDC, rng: &mut Rng, n: usize) {
+  let wp = hz(spdc.pump.frequency());
+  let span = span_of(spdc);
+  let mut pts: Vec<(String, f64)> = vec![("center".into(), wp), ("half+".into(), wp + 0.5 * span), ("half-".into(), wp - 0.5 * span)];
+  for _ in 0..n {
+    pts.push(("rand".into(), wp + span * rng.range(-2.5, 2.5)));
+  }
+  for (tag, om) in pts {
+    let sp = spdc.clone();
+    let a = guarded(move || pump_spectral_amplitude(w(om), &sp));
+    emit(json!({"kind":"env","setup":name,"tag":tag,"wp":fx(wp),"fwhm":fx(*(spdc.pump_bandwidth / M)),"w":fx(om),
+      "alpha": a.as_ref().ok().map(|x| fx(*x)), "panic": a.err()}));
+  }
+}
+
+/// spectrum functions of a setup whose centre frequencies do not add up to the pump frequency: pairs on the pump's
+/// anti-diagonal (ws + wi = wp, envelope 1) and at the setup's own centre (envelope far below threshold => exact zeros)
+fn support_history(name: &str, spdc: &SPDC, rng: &mut Rng, integ: Integrator) {
+  let js = match { let sp = spdc.clone(); guarded(move || JointSpectrum::new(sp, integ)) } {
+    Ok(j) => j,
+    Err(p) => {
+      emit(json!({"kind":"hist_skip","setup":name,"panic":p}));
+      return;
+    }
+  };
+  let wp = hz(spdc.pump.frequency());
+  let (s0, i0) = (hz(spdc.signal.frequency()), hz(spdc.idler.frequency()));
+  let span = span_of(spdc);
+  observe_point(name, "hist_pump_diag", spdc, &js, s0, wp - s0, integ, true);
+  observe_point(name, "hist_pump_diag", spdc, &js, wp - i0, i0, integ, true);
+  observe_point(name, "hist_centre", spdc, &js, s0, i0, integ, true);
+  for _ in 0..2 {
+    let d = span * rng.range(-0.6, 0.6);
+    observe_point(name, "hist_rand", spdc, &js, s0 + d, wp - s0 + span * rng.range(-0.6, 0.6), integ, true);
+  }
+}
+
 /// all spectrum functions at one point; `pm` only where the point is inside the box (elsewhere the integrand is not
 /// meant to be evaluated at all)
 fn observe_point(name: &str, tag: &str, spdc: &SPDC, js: &JointSpectrum, os: f64, oi: f64, integ: Integrator, with_pm: bool) {
@@ -319,6 +356,43 @@ fn scaling(name: &str, spdc: &SPDC, res: usize, integ: Integrator, thorough: boo
   }
 }
 
+/// two-source HOM with the two sources scaled INDEPENDENTLY in power / deff (Rust vs Rust): visibilities and rate series
+fn hom_two_source(name: &str, spdc: &SPDC, res: usize, integ: Integrator) {
+  use spdcalc::utils::Steps;
+  let a0 = spdc.clone();
+  let mut b0 = spdc.clone();
+  b0.pump_bandwidth = 1.3 * b0.pump_bandwidth; // a physically different second source
+  let eval = move |a: SPDC, b: SPDC| -> Result<Value, String> {
+    guarded(move || {
+      let g = grid(&a, res, 0.9);
+      let v = hom_two_source_visibilities(&a, &b, g, g, integ);
+      let dt = 2e-13 * S;
+      let r = hom_two_source_rate_series(&a.joint_spectrum(integ), &b.joint_spectrum(integ), g, g, Steps(-dt, dt, 3));
+      json!({"vis": [fx(v.ss.1), fx(v.ii.1), fx(v.si.1)], "dt": [fx(v.ss.0.value_unsafe), fx(v.ii.0.value_unsafe), fx(v.si.0.value_unsafe)],
+        "ss": fxs(&r.ss), "ii": fxs(&r.ii), "si": fxs(&r.si)})
+    })
+  };
+  let base = match eval(a0.clone(), b0.clone()) {
+    Ok(v) => v,
+    Err(p) => {
+      emit(json!({"kind":"hom2_panic","setup":name,"panic":p}));
+      return;
+    }
+  };
+  // (power factor, deff factor) for source 1 and for source 2
+  for (f1, f2) in [((1.0, 1.0), (1e3, 1.0)), ((1.0, 1e-2), (1.0, 1.0)), ((1e-3, 1.0), (1.0, 1e2)), ((10.0, 0.1), (1e-2, 1e3))] {
+    let (mut a, mut b) = (a0.clone(), b0.clone());
+    a.pump_average_power = f1.0 * a.pump_average_power;
+    a.deff = f1.1 * a.deff;
+    b.pump_average_power = f2.0 * b.pump_average_power;
+    b.deff = f2.1 * b.deff;
+    match eval(a, b) {
+      Ok(v) => emit(json!({"kind":"hom2","setup":name,"source1":[fx(f1.0), fx(f1.1)],"source2":[fx(f2.0), fx(f2.1)],"base":base.clone(),"scaled":v})),
+      Err(p) => emit(json!({"kind":"hom2_panic","setup":name,"panic":p})),
+    }
+  }
+}
+
 fn counts(name: &str, spdc: &SPDC, res: usize, integ: Integrator) {
   let sp = spdc.clone();
   let r = guarded(move || {
@@ -361,6 +435,30 @@ pub fn run(args: &[String]) {
     support(name, &spdc, &mut rng, n, integ);
     norm(name, &spdc, &mut rng, n + 2);
     scaling(name, &spdc, res, integ, thorough);
+    hom_two_source(name, &spdc, res, integ);
     counts(name, &spdc, res, integ);
+    // edit histories that leave the setup NOT energy-conserving at its centre (signal or idler retuned without re-deriving
+    // the other, pump retuned alone): the envelope must stay centred on the PUMP frequency
+    let lam_s = *(spdc.signal.vacuum_wavelength() / M);
+    let lam_p = *(spdc.pump.vacuum_wavelength() / M);
+    let hists: Vec<(&str, Box<dyn Fn(&mut SPDC)>)> = vec![
+      ("signal-1.3%", Box::new(move |s: &mut SPDC| { s.signal.set_vacuum_wavelength(lam_s * 0.987 * M); })),
+      ("idler+2%", Box::new(move |s: &mut SPDC| { let l = *(s.idler.vacuum_wavelength() / M); s.idler.set_vacuum_wavelength(l * 1.02 * M); })),
+      ("pump+0.4%", Box::new(move |s: &mut SPDC| { s.pump.set_vacuum_wavelength(lam_p * 1.004 * M); })),
+      ("signal+idler-1%", Box::new(move |s: &mut SPDC| {
+        let l = *(s.idler.vacuum_wavelength() / M);
+        s.signal.set_vacuum_wavelength(lam_s * 0.99 * M);
+        s.idler.set_vacuum_wavelength(l * 0.99 * M);
+      })),
+    ];
+    for (h, f) in hists.iter() {
+      let mut s2 = spdc.clone();
+      f(&mut s2);
+      let hname = format!("{}|{}", name, h);
+      emit(json!({"kind":"setup","setup":hname,"wp":fx(hz(s2.pump.frequency())),"ws0":fx(hz(s2.signal.frequency())),
+        "wi0":fx(hz(s2.idler.frequency())),"pp_off": s2.pp == PeriodicPoling::Off, "history": h}));
+      envelope_one(&hname, &s2, &mut rng, 2);
+      support_history(&hname, &s2, &mut rng, integ);
+    }
   }
 }
